@@ -1,10 +1,16 @@
 import TrucModel.Proofs.BuilderProps
 import TrucModel.Props.Examples
 import TrucModel.Model.Resolver
+import TrucModel.Proofs.LayoutFactor
 /-
   C18 — Layout depends only on the resolver's answers; type tables are faithful.
   The model has no access to the host's sizes: every entry point records exactly the numbers it is
   given (`C18_records_answer`), and all layout decisions read only those recorded numbers.
+  `C18_layout_factor`: two histories whose requests agree on the supplied sizes and alignments (and on
+  removals and strategies) — whatever the names, type names and uninit flags, as long as no addition
+  is refused — produce the same variants and the same offset for every datum: the layout is a function
+  of the supplied sizes and alignments only. (Every strategy commutes with erasing everything but
+  size, alignment and offset: `Proofs/LayoutFactor.lean`.)
   Channel L drives the real entry points under *synthetic* resolvers whose answers differ from the
   host's; an implementation consulting `size_of` would diverge from the model.
 -/
@@ -34,6 +40,32 @@ theorem C18_shape_preserved (reqs : List Req) (hv : ∀ r ∈ reqs, r.valid) (st
     simp only [hp, Bool.not_false, if_true, Option.some.injEq, Prod.mk.injEq] at hc
     obtain ⟨rfl, _⟩ := hc
     exact sameShape_refl _
+
+/-- the layout is a function of the supplied sizes and alignments only -/
+theorem C18_layout_factor (reqs reqs' : List Req) (hg : SameGeo reqs reqs')
+    (ha : Accepted BState.init reqs) (ha' : Accepted BState.init reqs') :
+    (run reqs).variants = (run reqs').variants ∧
+    (run reqs).defs.length = (run reqs').defs.length ∧
+    ∀ id, off (run reqs).defs id = off (run reqs').defs id ∧ sz (run reqs).defs id = sz (run reqs').defs id ∧
+      al (run reqs).defs id = al (run reqs').defs id := by
+  have h := layout_factor_from reqs reqs' BState.init BState.init rfl hg ha ha'
+  have hd : G (run reqs).defs = G (run reqs').defs := congrArg BState.defs h
+  refine ⟨?_, ?_, ?_⟩
+  · have := congrArg BState.variants h; exact this
+  · have := congrArg List.length hd; simpa using this
+  · intro id
+    refine ⟨?_, ?_, ?_⟩
+    · rw [← off_G, hd, off_G]
+    · rw [← sz_G, hd, sz_G]
+    · rw [← al_G, hd, al_G]
+
+/-- non-vacuity: the example history and a renamed, retyped copy of it have the same geometry and are accepted -/
+example : SameGeo Ex.h1 (Ex.h1.map (fun r => match r with
+      | .add i => .add { i with name := i.name ++ "_x", ty := "Other", uninit := !i.uninit }
+      | r => r)) ∧ Accepted BState.init Ex.h1 := by
+  refine ⟨by simp [Ex.h1, SameGeo, geoEq, Ex.I], ?_⟩
+  simp only [Ex.h1, Accepted, and_true]
+  decide +kernel
 
 example : ((BState.init.addDatum (Ex.I "a" 12 4)).1.defs.map (fun i => (i.size, i.align))) = [(12, 4)] := by
   decide +kernel
